@@ -395,6 +395,30 @@ fn to_outcome(r: Result<Obs, Fail>, sink: Option<&mut Sink>, case: Value) -> Out
     }
 }
 
+/// A program of `n` statements of one shape, each with its own names.
+fn flat_program(kind: usize, n: usize) -> String {
+    let mut t = String::new();
+    for i in 0..n {
+        match kind {
+            0 => t.push_str(&format!("let v{i} = {{ 'a num, 'b [str] }};\n")),
+            1 => t.push_str(&format!("res /r{i}/{{ 'id int }} on get -> <status=200, {{}}> :: <status=404>;\n")),
+            _ => t.push_str(&format!("# description: \"d{i}\"\nlet f{i} x y = (x | y) & {{ 'p{i}? uri }} `title: t`;\n")),
+        }
+    }
+    t
+}
+
+fn flat_cases(thorough: bool) -> Vec<(usize, usize)> {
+    let sizes: &[usize] = if thorough { &[1000, 3000, 10_000, 30_000, 100_000] } else { &[1000, 3000, 10_000] };
+    let mut v = Vec::new();
+    for kind in 0..3 {
+        for n in sizes {
+            v.push((kind, *n));
+        }
+    }
+    v
+}
+
 impl Engine for C12 {
     fn id(&self) -> &'static str {
         "C12"
@@ -468,7 +492,7 @@ impl Engine for C12 {
             ));
         }
         v.push(Phase::new(
-            "nesting families, depths 1..=200, each family one case",
+            "nesting families, depths 1..=200, each family one case; flat programs of 1000..10000 (thorough 100000) statements in three shapes",
             json!({"space": "families", "thorough": thorough}),
         ));
         v
@@ -487,6 +511,22 @@ impl Engine for C12 {
                     i as u64,
                     || json!({"family": f.name, "thorough": thorough, "example": family_text(f.name, 3)}),
                     |s| to_outcome(check_family(f.name, thorough), Some(s), Value::Null),
+                );
+            }
+            // long flat programs (thousands of statements, nesting weight of one statement):
+            // the memo table holds 10^5..10^6 entries and must still be invisible
+            for (j, (kind, n)) in flat_cases(thorough).into_iter().enumerate() {
+                let i = (FAMILIES.len() + j) as u64;
+                if sink.expired() {
+                    break;
+                }
+                if !sink.mine(i) {
+                    continue;
+                }
+                sink.visit(
+                    i,
+                    || json!({"flat": kind, "statements": n}),
+                    |s| to_outcome(check_text(&flat_program(kind, n), MAX_UNCACHED_WEIGHT), Some(s), Value::Null),
                 );
             }
             return;
@@ -531,6 +571,9 @@ impl Engine for C12 {
                 None,
                 case.clone(),
             );
+        }
+        if let (Some(kind), Some(n)) = (case["flat"].as_u64(), case["statements"].as_u64()) {
+            return to_outcome(check_text(&flat_program(kind as usize, n as usize), MAX_UNCACHED_WEIGHT), None, case.clone());
         }
         let text = case["text"].as_str().unwrap_or("");
         to_outcome(check_text(text, MAX_UNCACHED_WEIGHT), None, case.clone())
